@@ -11,12 +11,15 @@ from vf import gen_ttp, oracle_ttp
 from vf.core import Ctx, HarnessError, Violation, require, sut
 
 META = {
-    "rule": "four sub-checks. (1) 'plan': plans of 7 families (uniform "
+    "rule": "four sub-checks. (1) 'plan': plans of 8 families (uniform "
             "entries; circle-method round robins with relabelled teams, "
-            "reordered days and drawn orientations; day-wise arbitrary "
+            "reordered days and drawn orientations; four-round plans with "
+            "every day played twice so that all streaks are even; day-wise "
+            "arbitrary "
             "matchings; these with overwritten/exchanged entries; with idle "
             "teams; with teams meeting themselves; periodic team columns) "
-            "for n in {4,6,8}, rounds 1..3, built through "
+            "for n in {4,6,8}, rounds 1..3 (4 for the doubled family), built "
+            "through "
             "GamePlanSpace.create/validate, x constraint settings drawn "
             "from everything the Instance constructor accepts (bundled, "
             "small, free, and settings placed just inside / just outside "
@@ -62,10 +65,13 @@ META = {
 ENUM_N, ENUM_ROUNDS = 4, 2
 BUNDLED = [1, 3, 1, 3, 1, 6]
 ENUM_SETTINGS_QUICK = [BUNDLED, [2, 3, 2, 3, 1, 6]]
+# feasible plans among the 12^6: 1920 / 0 / 288 / 384 / 2688 / ... - with a
+# streak minimum >= 2 a four-team double round robin has no feasible plan
+# (3 home games cannot be split into two runs, equal patterns never meet)
 ENUM_SETTINGS_THOROUGH = [
-    BUNDLED, [2, 3, 2, 3, 1, 6], [1, 2, 1, 2, 1, 6], [2, 6, 1, 3, 0, 6],
-    [1, 1, 1, 1, 0, 6], [3, 6, 3, 6, 0, 6], [1, 3, 1, 3, 2, 6],
-    [1, 6, 1, 6, 0, 2], [1, 3, 2, 4, 1, 1]]
+    BUNDLED, [2, 3, 2, 3, 1, 6], [1, 2, 1, 2, 1, 6], [1, 3, 1, 3, 2, 6],
+    [1, 6, 1, 6, 0, 2], [1, 3, 1, 3, 0, 6], [1, 2, 1, 3, 1, 3],
+    [2, 6, 1, 3, 0, 6], [3, 6, 3, 6, 0, 6]]
 
 
 # ----------------------------------------------------------------------------
@@ -170,6 +176,10 @@ def check_plan(ctx: Ctx, case: dict, use_target: bool = False) -> None:
         labels.append("st:sep_max_binding")
     if pre is not None:
         labels.append("dirty_scratch")
+    if cls == "feasible" and (sett[0] >= 2 or sett[2] >= 2):
+        labels.append("feasible&streak_min>=2")
+    if cls == "feasible" and list(sett) != gen_ttp.bundled_setting(n, rounds):
+        labels.append("feasible&other_setting")
     if oracle_ttp.self_play(plan):
         labels.append("self_play")
         if any(t == n - 1 for _d, t in oracle_ttp.self_play(plan)):
